@@ -1417,6 +1417,9 @@ class Models:
                                     else:
                                         out.extend((t, VBool(False)) for t in fs)
                                         nxt.extend(ts)
+                        if len(nxt) > 6:
+                            # the states that go on to the next item differ only in what they learnt about this one
+                            nxt = [s_ for (s_, _) in c.I.merge_exits([(s_, UNIT) for s_ in nxt])]
                         cur = nxt
                     for s3 in cur:
                         out.append((s3, M.none(c.dty) if name == 'position' else VBool(name == 'all')))
